@@ -948,6 +948,62 @@ def _r11g(rep, tu, P):
 
         return core.src(_Ren().visit(copy.deepcopy(node)))
 
+    # the second argument of IJ(k, .) must be the *rank* of the central vertex among the sorted frequencies, i.e. the
+    # inverse of the sorting permutation applied to the central label -- decided by a small kind inference
+    # (omegas / sorting permutation / its inverse / central label) through locals, zip targets and attributes
+    cls_node = core.find_def(PY, CLS)
+
+    def kind(e, fn_, depth=0):
+        if depth > 8 or e is None:
+            return None
+        if isinstance(e, ast.Call) and core.src(e.func) in ("np.asarray", "np.array", "np.ascontiguousarray") and e.args:
+            return kind(e.args[0], fn_, depth + 1)
+        if isinstance(e, ast.Attribute) and core.src(e.value) == "self":
+            if e.attr == "_tetrahedra_omegas":
+                return "omegas"
+            if e.attr == "_central_indices":
+                return "central"
+            vals = [st.value for st in ast.walk(cls_node) if isinstance(st, ast.Assign) and core.src(st.targets[0]) == core.src(e) and not (isinstance(st.value, ast.Constant) and st.value.value is None)]
+            owners = [core.enclosing_function(st) for st in ast.walk(cls_node) if isinstance(st, ast.Assign) and core.src(st.targets[0]) == core.src(e) and not (isinstance(st.value, ast.Constant) and st.value.value is None)]
+            ks = {kind(v, o, depth + 1) for v, o in zip(vals, owners)}
+            return ks.pop() if len(ks) == 1 else None
+        if isinstance(e, ast.Name):
+            if fn_ is None:
+                return None
+            if e.id in {a.arg for a in fn_.args.args} and "omegas" in e.id:
+                return "omegas"
+            for lp in ast.walk(fn_):
+                if isinstance(lp, ast.For) and isinstance(lp.iter, ast.Call) and core.src(lp.iter.func) == "zip" and isinstance(lp.target, ast.Tuple):
+                    for t_, a_ in zip(lp.target.elts, lp.iter.args):
+                        if isinstance(t_, ast.Name) and t_.id == e.id:
+                            return kind(a_, fn_, depth + 1)
+            asg = [st.value for st in ast.walk(fn_) if isinstance(st, ast.Assign) and len(st.targets) == 1 and isinstance(st.targets[0], ast.Name) and st.targets[0].id == e.id]
+            ks = {kind(v, fn_, depth + 1) for v in asg}
+            return ks.pop() if len(ks) == 1 else None
+        if isinstance(e, ast.Call) and core.src(e.func) == "np.argsort" and e.args:
+            k0 = kind(e.args[0], fn_, depth + 1)
+            return {"omegas": "perm", "perm": "rank"}.get(k0)
+        if isinstance(e, ast.Subscript):
+            # np.where(perm == central)[0][0]
+            inner = e
+            while isinstance(inner, ast.Subscript):
+                inner = inner.value
+            if isinstance(inner, ast.Call) and core.src(inner.func) == "np.where" and inner.args and isinstance(inner.args[0], ast.Compare) and isinstance(inner.args[0].ops[0], ast.Eq):
+                ks = {kind(inner.args[0].left, fn_, depth + 1), kind(inner.args[0].comparators[0], fn_, depth + 1)}
+                return "inverse" if ks == {"perm", "central"} else None
+            kb = kind(e.value, fn_, depth + 1)
+            parts = e.slice.elts if isinstance(e.slice, ast.Tuple) else [e.slice]
+            has_central = any(kind(p_, fn_, depth + 1) == "central" for p_ in parts)
+            if kb == "perm" and has_central:
+                return "direct"
+            if kb == "rank" and has_central:
+                return "inverse"
+            return kb if not has_central else None
+        if isinstance(e, ast.Call) and isinstance(e.func, ast.Attribute) and e.func.attr == "index" and e.args:
+            k0 = kind(e.func.value.args[0] if isinstance(e.func.value, ast.Call) and e.func.value.args else e.func.value, fn_, depth + 1)
+            return "inverse" if k0 == "perm" and kind(e.args[0], fn_, depth + 1) == "central" else None
+        return None
+
     py_cases = []
     for n in ast.walk(pf):
         if isinstance(n, ast.If) and any(isinstance(s_, ast.AugAssign) for s_ in n.body):
@@ -955,7 +1011,11 @@ def _r11g(rep, tu, P):
             calls = [c for c in ast.walk(aug.value) if isinstance(c, ast.Call) and isinstance(c.func, ast.Name)]
             ks_ = sorted({core.src(c.args[0]) for c in calls})
             callees = sorted(ren.get(c.func.id, c.func.id) for c in calls)
-            py_cases.append((frozenset(py_atoms(n.test)), ks_, callees, "+=" if isinstance(aug.op, ast.Add) else "?", ("indices == ci" in rsrc(aug.value) or "ci == indices" in rsrc(aug.value))))
+            ij_calls = [c for c in calls if ren.get(c.func.id, c.func.id) == "IJ" and len(c.args) >= 2]
+            rk = {kind(c.args[1], pf) for c in ij_calls}
+            if rk - {"inverse", "direct"}:
+                raise AnalysisError(f"R11g: cannot tell what the second argument of {core.norm(core.src(ij_calls[0]), 50) if ij_calls else 'IJ'} is (rank of the central vertex expected)")
+            py_cases.append((frozenset(py_atoms(n.test)), ks_, callees, "+=" if isinstance(aug.op, ast.Add) else "?", rk == {"inverse"}))
     if len(c_cases) != 5 or len(py_cases) != 5:
         raise AnalysisError(f"case split: found {len(c_cases)} C cases and {len(py_cases)} Python cases, expected 5 and 5")
     for k, (cc, pc) in enumerate(zip(c_cases, py_cases)):
